@@ -44,6 +44,21 @@ CHECKS = {
  "C12": ("exploration", "model-based testing: bounded-exhaustive histories over the 11-letter server alphabet against a reference activation automaton, input attempt after every step",
          "Every history up to length 5 (6 thorough) plus biased random histories up to length 60, each on a fresh connected client; after every step the client's emissions, input acceptance (write / try_write) with byte counts, and bitmap callbacks are compared with the automaton written from the property (set-valued where the property is silent).",
          "Trusted: the 40-line reference automaton and the strict parsers. One PDU per frame only.", "DESIGN §6 C12"),
+ "C01": ("fault_enumeration", "fault enumeration over the final CredSSP reply through real TLS: exhaustive single-bit flips and truncations of the honest reply, structured forgeries (offsets, wrong keys, other certificate, reflection, re-encoding), classified by the reference CredSSP/NTLM server itself",
+         "Whole NLA handshakes through Connector::connect against an in-process OpenSSL acceptor and reference NTLM/CredSSP server. For every reply that does not prove the session key the call must fail and the server, reading to EOF, must receive zero bytes after the AUTHENTICATE message; for the honest reply the sealed credentials must follow.",
+         "Trusted: refimpl::ntlm verifier and seal model (pinned by MS-NLMP 4.2.4 vectors), OpenSSL. Replies the reference side itself accepts (e.g. a flipped bit in the unchecked version INTEGER, another sequence number under a valid signature) are not required to be refused.", "DESIGN §6 C01"),
+ "C02": ("exploration", "bounded-exhaustive negotiation replies x configurations on a scripted transport with a raw-transcript oracle, plus generated whole connections through real TLS with trusted / untrusted certificates",
+         "Every low-byte selected-protocol value, every flag byte, every reply type byte, failures, absent data, truncations and extensions for Connector::connect (NLA on/off, certificate checking on/off, restricted admin, blank credentials) and x224::Client::connect (masks 1/2/3, with/without authentication protocol): unless a single offered protocol is selected the call fails and nothing is written after the connection request; otherwise only TLS records follow. TLS sub-lane: raw transcript = request + TLS records; untrusted certificate with checking on gives Err before any TSRequest / RDP byte; CA-signed accepted; untrusted accepted when checking is off.",
+         "Trusted: TLS record header recogniser, OpenSSL chain validation against the harness CA (SSL_CERT_FILE). X.224 header fields other than the negotiation structure are not asserted.", "DESIGN §6 C02"),
+ "C07": ("fault_enumeration", "fault injection over reference CHALLENGE / TSRequest messages with field maps (exhaustive per-field boundary sweeps, every AvId, truncations, double faults, DER trees, all short strings) at the four parser entries and through real NLA handshakes",
+         "Ntlm::read_challenge_message, cssp::read_ts_server_challenge, cssp::read_ts_validate and gss_unwrapex on several challenge layouts (with/without version, both payload orders, no timestamp, empty target info) with every scalar field swept, every truncation, generated corruption; whole handshakes with a faulty CHALLENGE TSRequest or final reply. Only Ok/Err are acceptable.",
+         "Trusted: as C05. Adversarial certificates for the X.509 parser are not generated.", "DESIGN §6 C07"),
+ "C15": ("exploration", "property-based testing: generated identities, passwords / NT hashes and CHALLENGE messages; an independent MS-NLMP server verifier derives everything from the three messages",
+         "Tens of thousands (2 M thorough) of tokens: offset/length pairs, identity fields, NTProofStr, client-challenge blob, LMv2, key exchange, MIC, then session-security interop; hash-login and password-login verify against the same account.",
+         "Trusted: refimpl::ntlm + refimpl::crypto (MS-NLMP 4.2.4 vectors). Upper-casing restricted to characters on which Unicode and Windows agree.", "DESIGN §6 C15"),
+ "C17": ("exploration", "all 32 option combinations plus generated credentials as whole connections through real TLS; decrypted payload oracle + negative substring search over every byte on the wire",
+         "Connector::connect with every combination of NLA, restricted admin, blank credentials, auto logon, password/hash against the reference CredSSP + RDP server: TSCredentials and Client Info contents per mode, request flags, INFO_AUTOLOGON; the password's UTF-8/UTF-16LE/BE encodings must not occur on the raw transport, in NTLM tokens, or in any other TLS-protected message.",
+         "Trusted: reference server decryption (OpenSSL + refimpl seal model), strict Client Info parser.", "DESIGN §6 C17"),
 }
 NOT_YET = "check not built yet in this session (machinery under construction; see DESIGN.md §10 build order)"
 def main():
